@@ -8,6 +8,7 @@
          `doprnt`         = printf/doprnt.c   `__gmp_doprnt`           (format parser, hand-off to libc)
          `snRun`          = printf/snprntffuns.c  (bounded writer)
          `asRun`          = printf/asprntffuns.c + vasprintf.c (growing buffer, realloc to fit)
+         `doprntMpf`      = printf/doprntf.c  `__gmp_doprnt_mpf` around the digits `mpfGetStr` specifies
          `libcFormat`     = what the C library does with the pieces handed to it (only the integer,
                             %c, %s, %% conversions; written from the standard, same `cFormatCore`).
   The code mirrored is /repo after the repairs 802f527, bbc62f3, 214972f, 68441a0 (C99 flag rules); the
@@ -349,6 +350,7 @@ inductive Arg where
   | cell                    -- pointer to a C integer object (target of %n)
   | mpzOut                  -- mpz_t target of %Zn
   | mpqOut                  -- mpq_t target of %Qn
+  | mpf (prec : Nat) (neg : Bool) (limbs : List Nat) (exp : Int)   -- mpf_t: _mp_prec, sign, limbs, _mp_exp
   deriving Repr, Inhabited, BEq
 
 def isDigit (c : Char) : Bool := '0' ≤ c && c ≤ '9'
@@ -453,6 +455,155 @@ def libcFormatAux : Nat → List Char → List Arg → List Char → Option (Lis
 
 def libcFormat (piece : List Char) (args : List Arg) : Option (List Char) :=
   libcFormatAux (piece.length + 1) piece args []
+
+/-! ## MODEL: `__gmp_doprnt_mpf` (printf/doprntf.c) on the digits of mpf_get_str
+
+`mpfGetStr` is the SPECIFICATION of mpf_get_str (exact value, truncated to the requested number of digits
+and rounded half up on the next digit, trailing zeros removed); its accuracy is property C13's business.
+The correspondence for `%F` therefore only uses values whose mantissa has at most two limbs (mpf/get_str.c
+then multiplies/divides exactly). -/
+
+/-- digits (as numbers) of `n` in base `b`, most significant first; [] for 0 -/
+def digitList (b : Nat) (n : Nat) : List Nat :=
+  if _h : n = 0 ∨ b < 2 then [] else digitList b (n / b) ++ [n % b]
+termination_by n
+decreasing_by
+  have h' : ¬ (n = 0 ∨ b < 2) := _h
+  exact Nat.div_lt_self (by omega) (by omega)
+
+/-- smallest j ≥ 1 with num * b^j ≥ den (num > 0) -/
+def firstDigitPos (b num den : Nat) : Nat → Nat → Nat
+  | 0, j => j
+  | fuel + 1, j => if num * b ^ j ≥ den then j else firstDigitPos b num den fuel (j + 1)
+
+/-- MPF_SIGNIFICANT_DIGITS (gmp-impl.h:3963): 2 + floor((prec-1)*64*chars_per_bit_exactly) -/
+def mpfSignificantDigits (base : Nat) (prec : Nat) : Nat :=
+  if base = 16 then 2 + ((prec - 1) * 64) / 4
+  else 2 + ((prec - 1) * 64 * 3010299956639812) / 10000000000000000
+
+/-- mpf_get_str (NULL, &exp, base, ndigits, f) for |f| = mant * 2^e2, mant > 0: (digit values, exp). -/
+def mpfGetStr (base : Nat) (ndigits : Nat) (prec : Nat) (mant : Nat) (e2 : Int) : List Nat × Int :=
+  let maxd := mpfSignificantDigits base prec
+  let n := if ndigits = 0 ∨ ndigits > maxd then maxd else ndigits
+  let num := if e2 ≥ 0 then mant * 2 ^ e2.toNat else mant
+  let den := if e2 ≥ 0 then 1 else 2 ^ (-e2).toNat
+  -- exponent: base^(E-1) ≤ value < base^E
+  let E : Int := if num ≥ den then ((digitList base (num / den)).length : Int)
+                 else 1 - (firstDigitPos base num den (den.log2 + 2) 1 : Int)
+  -- value * base^(n-E), rounded half up
+  let sh : Int := n - E
+  let numS := if sh ≥ 0 then num * base ^ sh.toNat else num
+  let denS := if sh ≥ 0 then den else den * base ^ (-sh).toNat
+  let q := (2 * numS + denS) / (2 * denS)
+  let (ds, E) : List Nat × Int := if q ≥ base ^ n then ([1], E + 1) else (digitList base q, E)
+  ((ds.reverse.dropWhile (· == 0)).reverse, E)
+
+/-- `snprintf (exponent, ..., p->expfmt, expsign, expval)`: "e%c%02ld" / "p%c%ld" and upper-case twins -/
+def expText (p : Params) (expval : Int) : List Char :=
+  let letter : Char := if p.expHex then (if p.expUpper then 'P' else 'p') else (if p.expUpper then 'E' else 'e')
+  let sgn : Char := if expval ≥ 0 then '+' else '-'
+  let ds := natDigits 10 false expval.natAbs
+  let ds := if ¬ p.expHex ∧ ds.length < 2 then '0' :: ds else ds
+  letter :: sgn :: ds
+
+/-- chars_per_limb of mp_bases (64-bit limbs) for the two bases `%F` conversions use -/
+def charsPerLimb (base : Nat) : Int := if base = 16 then 16 else 19
+
+/-- `__gmp_doprnt_mpf` (printf/doprntf.c:55-385), decimal point ".". -/
+def doprntMpf (p : Params) (fprec : Nat) (neg : Bool) (limbs : List Nat) (fexp : Int) : List Call :=
+  let base := p.base.natAbs
+  let upper := decide (p.base < 0)
+  let mant := val limbs
+  let zero := limbs.isEmpty ∨ mant = 0
+  -- :73-114 how many digits to ask for
+  let prec0 : Int := p.prec
+  let (prec1, ndigits) : Int × Int :=
+    if prec0 ≤ -1 then
+      (if p.conv = 3 then (mpfSignificantDigits base fprec : Int) else prec0, 0)
+    else if p.conv = 1 then (prec0, max (prec0 + 2 + fexp * (charsPerLimb base + (if fexp ≥ 0 then 1 else 0))) 1)
+    else if p.conv = 2 then (prec0, prec0 + 1)
+    else (prec0, max prec0 1)
+  -- :117 mpf_get_str
+  let (dvals, exp0) : List Nat × Int :=
+    if zero then ([], 0) else mpfGetStr base ndigits.toNat fprec mant (64 * (fexp - limbs.length))
+  let s0 : List Char := dvals.map (digitChar upper)
+  -- :131-138 sign
+  let sign : Option Char := if neg ∧ ¬ zero then some '-' else p.sign
+  let signlen : Int := if sign.isSome then 1 else 0
+  -- the three layouts
+  let fixedPart (s : List Char) (exp : Int) : Int × Int × Int × Int :=     -- intlen intzeros fraczeros fraclen
+    if exp ≤ 0 then (0, 1, -exp, s.length)
+    else
+      let intlen := min (s.length : Int) exp
+      (intlen, exp - intlen, 0, s.length - intlen)
+  let sciPart (s : List Char) (exp : Int) : Int × Int × Int × Int × List Char :=
+    let intlen : Int := min 1 s.length
+    let expval : Int := (exp - intlen) * (if p.exptimes4 then 4 else 1)
+    (intlen, if intlen = 0 then 1 else 0, 0, s.length - intlen, expText p expval)
+  -- :140-215 FIXED: truncate to prec fraction digits with round to nearest
+  let fixedRound (s : List Char) (exp : Int) (prec : Int) : List Char × Int :=
+    let newlen := exp + prec
+    if newlen < 0 then ([], 0)
+    else if (s.length : Int) ≤ newlen then (s, exp)
+    else
+      let keep := s.take newlen.toNat
+      let n := (dvals.getD newlen.toNat 0)
+      if n ≥ (base + 1) / 2 then
+        -- propagate a carry
+        let kv := (dvals.take newlen.toNat)
+        let stripped := (kv.reverse.dropWhile (· == base - 1)).reverse
+        match stripped.reverse with
+        | [] => (['1'], exp + 1)
+        | last :: restRev => ((restRev.reverse ++ [last + 1]).map (digitChar upper), exp)
+      else
+        let t := (keep.reverse.dropWhile (· == '0')).reverse
+        (t, if t.isEmpty then 0 else exp)
+  let (s, prec, intlen, intzeros, fraczeros, fraclen, expStr) :
+      List Char × Int × Int × Int × Int × Int × List Char :=
+    if p.conv = 1 then
+      let prec := if prec1 ≤ -1 then max 0 ((s0.length : Int) - exp0) else prec1
+      let (s, exp) := fixedRound s0 exp0 prec
+      let (a, b, c, d) := fixedPart s exp
+      (s, prec, a, b, c, d, [])
+    else if p.conv = 2 then
+      let prec := if prec1 ≤ -1 then max 0 ((s0.length : Int) - 1) else prec1
+      let (a, b, c, d, e) := sciPart s0 exp0
+      (s0, prec, a, b, c, d, e)
+    else
+      -- GENERAL :263-271
+      if exp0 - 1 < -4 ∨ exp0 - 1 ≥ max 1 prec1 then
+        let (a, b, c, d, e) := sciPart s0 exp0
+        (s0, prec1, a, b, c, d, e)
+      else
+        let (a, b, c, d) := fixedPart s0 exp0
+        (s0, prec1, a, b, c, d, [])
+  let explen : Int := expStr.length
+  -- :281-292 trailing zeros up to the precision
+  let preczeros : Int :=
+    if p.showtrailing then max 0 (prec - (fraczeros + fraclen + (if p.conv = 3 then intlen + intzeros else 0))) else 0
+  -- :296-298 radix point
+  let pointlen : Int := if fraczeros + fraclen + preczeros ≠ 0 ∨ p.showpoint then 1 else 0
+  -- :303-324 base prefix
+  let showbase : List Char :=
+    if p.showbase = .no then []
+    else if p.showbase = .nonzero ∧ intlen = 0 ∧ fraclen = 0 then []
+    else (if p.base = 16 then ['0', 'x'] else if p.base = -16 then ['0', 'X'] else if p.base = 8 then ['0'] else [])
+  let showbaselen : Int := showbase.length
+  -- :329-336
+  let justlen : Int := p.width - (signlen + showbaselen + intlen + intzeros + pointlen + fraczeros + fraclen + preczeros + explen)
+  let justify := if justlen ≤ 0 then Justify.none else p.justify
+  (if justify = .right then [Call.reps p.fill justlen.toNat] else []) ++
+  (match sign with | some c => [Call.reps c 1] | none => []) ++
+  memoryMaybe showbase ++
+  (if justify = .internal then [Call.reps p.fill justlen.toNat] else []) ++
+  [Call.memory (s.take intlen.toNat)] ++
+  repsMaybe '0' intzeros.toNat ++
+  (if pointlen ≠ 0 then [Call.memory ['.']] else []) ++
+  repsMaybe '0' fraczeros.toNat ++
+  memoryMaybe ((s.drop intlen.toNat).take fraclen.toNat) ++
+  repsMaybe '0' preczeros.toNat ++
+  memoryMaybe expStr ++
+  (if justify = .left then [Call.reps p.fill justlen.toNat] else [])
 
 /-! ## MODEL: the format parser `__gmp_doprnt` (printf/doprnt.c) -/
 
@@ -607,6 +758,33 @@ def doN (ps : PS) (tp : List Char) (st : DS) : Option DS :=
     | .mpqOut :: as => if t = 'Q' then some ({ st with ap := as, stores := st.stores ++ [Store.mpq r 1] }.sync) else none
     | _ => none
 
+/-- the float conversions a A e E f g G (doprnt.c:241-260, 357-395, 403-417); only the MPIR type F is
+    modelled (double and long double arguments are not passed by the harness). -/
+def doFloat (old : Bool) (ps : PS) (tp : List Char) (c : Char) (st : DS) : Option DS :=
+  let p := ps.param
+  -- per conversion character
+  let p : Params :=
+    if c = 'a' ∨ c = 'A' then
+      { p with base := if c = 'a' then 16 else -16, expHex := true, expUpper := decide (c = 'A'), conv := 2, exptimes4 := true,
+               prec := if ¬ ps.seenPrec then -1 else p.prec, showbase := .yes, showtrailing := true }
+    else
+      let p := if c = 'E' ∨ c = 'G' then { p with base := -10, expUpper := true } else p
+      let p := if c = 'e' ∨ c = 'E' then { p with conv := 2 }
+               else if c = 'f' then { p with conv := 1 }
+               else { p with conv := 3, showtrailing := false }
+      -- label `floating:` "# in %e, %f and %g"
+      if p.showbase = .nonzero then { p with showpoint := true, showtrailing := true } else p
+  -- label `floating_a:` (214972f): the 0 flag is ignored if the - flag is present
+  let p := if ¬ old ∧ p.justify = .left then { p with fill := ' ' } else p
+  if ps.type = 'F' then
+    match flush st tp with
+    | some st => (match st.ap with
+      | .mpf fprec neg limbs fexp :: as =>
+          some (({ st with ap := as }.emit (doprntMpf p fprec neg limbs fexp)).sync)
+      | _ => none)
+    | none => none
+  else none
+
 /-- outcome of one character inside a `%` sequence -/
 inductive Step where
   | fail                              -- outside the modelled subset / undefined by the manual
@@ -650,7 +828,8 @@ def specStep (old : Bool) (c : Char) (ps : PS) (tp : List Char) (st0 : DS) : Ste
     | some (n, as) => .cont (.spec (stepStar old ps (wrapSigned 32 n)) tp) { st with ap := as }
     | none => .fail
   else if isDigit c then .cont (.spec ({ ps with inNum := true }.setValue (digitVal c)) tp) st
-  else if c = 'a' ∨ c = 'A' ∨ c = 'e' ∨ c = 'E' ∨ c = 'f' ∨ c = 'g' ∨ c = 'G' then .fail   -- floats: see doprntF
+  else if c = 'a' ∨ c = 'A' ∨ c = 'e' ∨ c = 'E' ∨ c = 'f' ∨ c = 'g' ∨ c = 'G' then
+    Step.ofOpt .text (doFloat old ps tp c st)
   else .cont .text st         -- :612-615 default: "something invalid", goto next
 
 /-- `__gmp_doprnt` main loops (:190-640), one character at a time.  `none` = outside the modelled
